@@ -7,8 +7,10 @@
     variables [nc], every schedule [list cev] of the product from [cinit nw nt nc]
     ([creach nw nt nc] = reachable from it). *)
 From Coq Require Import ZArith List Bool Arith.
-From MT Require Import Lib.Interleave Sync.SyncModel Machine.MachineModel Compose.ComposeModel Compose.ComposeProofs.
+From MT Require Import Lib.Interleave Sync.SyncModel Machine.MachineModel Compose.GenericModel Compose.Instances
+  Compose.MachineFrame Compose.GenericProofs Compose.ComposeModel Compose.ComposeProofs Compose.InstanceProofs.
 From MT Require Sync.MutexProofs Machine.MachineProofs.
+From MT Require Barrier.BarrierModel JoinCounter.JcModel Uncond.UncondModel.
 Import ListNotations.
 
 Theorem Compose_every_run_reachable : forall nw nt nc (sched : list cev),
@@ -16,13 +18,35 @@ Theorem Compose_every_run_reachable : forall nw nt nc (sched : list cev),
 Proof. intros. apply run_reachable. apply reach_init. reflexivity. Qed.
 Print Assumptions Compose_every_run_reachable.
 
+(** (0) THE INTERFACE THEOREM, proved once for every blocking protocol (GenericModel.v): if a step
+    of [t] does not suspend another thread, a callback step of [t] does not suspend [t], a push
+    step naming [x] leaves [x] not suspended and is enabled only if [x] is suspended, then in every
+    reachable state of the product with the scheduler machine a suspended thread is live and in
+    no place (current on no worker, in no hand, in no run queue).  The instances below (Sync,
+    barrier, join counter, uncond) discharge the four premises from the shape of one step. *)
+Theorem Compose_interface_blocked_frees_worker :
+  forall (pstate pev : Type) (pstep : pstate -> nat * pev -> option pstate) (is_cb : pev -> bool)
+         (susp : pstate -> nat -> bool) (push : pstate -> nat -> pev -> option nat) (ncb : pstate -> nat -> nat),
+  (forall s t e s1 x, pstep s (t, e) = Some s1 -> x <> t -> susp s1 x = true -> susp s x = true) ->
+  (forall s t e s1, pstep s (t, e) = Some s1 -> is_cb e = true -> susp s1 t = true -> susp s t = true) ->
+  (forall s t e s1 x, pstep s (t, e) = Some s1 -> push s t e = Some x -> susp s1 x = false) ->
+  forall p0 : pstate, (forall x, susp p0 x = false) ->
+  forall nw nt (c : gstate pstate) x, 1 <= nt ->
+  reachable (fun c0 => c0 = ginit pstate p0 nw nt) (gstep pstate pev pstep is_cb susp push ncb) c ->
+  susp (gp c) x = true ->
+  is_live (gm c) x = true /\ places (gm c) x = 0 /\
+  forall w, nth_error (cur (gm c)) w <> Some (Run x) /\ nth_error (hand (gm c)) w <> Some (Some x) /\
+            (forall q, nth_error (dq (gm c)) w = Some q -> ~ In x q).
+Proof. exact GenericProofs.blocked_frees_worker. Qed.
+Print Assumptions Compose_interface_blocked_frees_worker.
+
 (** (1) both component invariants and the link invariant hold in every reachable product state,
     and the product invariant is inductive *)
 Theorem Compose_invariants : forall nw nt nc c, 1 <= nt -> creach nw nt nc c ->
   MutexProofs.Inv (sy c) /\ MachineProofs.Inv (ma c) /\
   (forall x, susp_at (sy c) x = true -> parked (ma c) x = true).
 Proof.
-  intros nw nt nc c Hnt R. destruct (cinv_reach nw nt nc c Hnt R) as [A B _ D].
+  intros nw nt nc c Hnt R. destruct (cinv_reach nw nt nc c Hnt R) as [A [B _ D]].
   split; [exact A|]. split; [exact B|exact D].
 Qed.
 Print Assumptions Compose_invariants.
@@ -37,13 +61,17 @@ Print Assumptions Compose_inv_inductive.
 Theorem Compose_projections : forall nw nt nc c, creach nw nt nc c ->
   reachable MutexProofs.init SyncModel.step (sy c) /\
   reachable (MachineProofs.minit_pred nw nt) mstep (ma c).
-Proof. exact creach_proj. Qed.
+Proof. exact creach_sync. Qed.
 Print Assumptions Compose_projections.
 
 Theorem Compose_step_projects : forall c a c', cstep c a = Some c' ->
   (sy c' = sy c \/ exists t e, SyncModel.step (sy c) (t, e) = Some (sy c')) /\
   (exists l, mmoves (ma c) l = Some (ma c') /\ length l <= 3).
-Proof. intros c a c' H. split; [eapply cstep_proj_sync | eapply cstep_proj_mach]; eauto. Qed.
+Proof.
+  intros c a c' H. split.
+  - eapply (gstep_proj_proto state ev SyncModel.step SyncI.is_cb SyncI.susp SyncI.push ncbs); eauto.
+  - eapply (gstep_proj_mach state ev SyncModel.step SyncI.is_cb SyncI.susp SyncI.push ncbs); eauto.
+Qed.
 Print Assumptions Compose_step_projects.
 
 (** (2) *)
@@ -69,17 +97,118 @@ Print Assumptions C04_sync_step_on_unique_worker.
 
 (** (4) *)
 Theorem C04_wake_inserts_once : forall nw nt nc c w t e x, 1 <= nt -> creach nw nt nc c ->
-  guard_ok (ma c) w t e = true -> push_target (sy c) t e = Some x ->
+  cguard (ma c) w t e = true -> push_target (sy c) t e = Some x ->
   exists m1, mmove (ma c) w (PushTop x) = Some m1 /\ places (ma c) x = 0 /\ places m1 x = 1 /\
              is_live (ma c) x = true.
 Proof. exact wake_inserts_once. Qed.
 Print Assumptions C04_wake_inserts_once.
 
 Theorem Compose_sync_steps_never_stuck : forall nw nt nc c w t e s1, 1 <= nt -> creach nw nt nc c ->
-  guard_ok (ma c) w t e = true -> SyncModel.step (sy c) (t, e) = Some s1 ->
+  cguard (ma c) w t e = true -> SyncModel.step (sy c) (t, e) = Some s1 ->
   exists c', cstep c (CSync w t e) = Some c' /\ sy c' = s1.
 Proof. exact csync_never_stuck. Qed.
 Print Assumptions Compose_sync_steps_never_stuck.
+
+(* ------------------------------------------------------------------------------------------ *)
+(** The other blocking primitives: same product, same theorems (instances of the interface).
+    [XP.preach p0 nw nt] = reachable product states from protocol state [p0] and [minit nw nt]. *)
+
+(** C06 barrier: a thread suspended in myth_barrier_wait (from its arrival CAS until the last
+    arriver's push) - in particular every member of the sleep stack - occupies no worker *)
+Theorem C06_blocked_frees_worker : forall nw nt n (c : BarrierI.pstate) x, 1 <= nt ->
+  BarrierP.preach (BarrierModel.init_state nt n) nw nt c ->
+  BarrierI.susp (gp c) x = true \/
+  (n = Z.of_nat nt /\ In x (fst (BarrierModel.stack_list (gp c)))) ->
+  is_live (gm c) x = true /\ places (gm c) x = 0 /\
+  forall w, nth_error (cur (gm c)) w <> Some (Run x) /\ nth_error (hand (gm c)) w <> Some (Some x) /\
+            (forall q, nth_error (dq (gm c)) w = Some q -> ~ In x q).
+Proof.
+  intros nw nt n c x Hnt R H. eapply (BarrierP.p_blocked _ (BarrierP.susp_init nt n)); eauto.
+  destruct H as [H|[-> H]]; [exact H|]. eapply BarrierP.stack_members_susp; eauto.
+Qed.
+Print Assumptions C06_blocked_frees_worker.
+
+Theorem C06_wake_inserts_once : forall nw nt n (c : BarrierI.pstate) w t e s1 x, 1 <= nt ->
+  BarrierP.preach (BarrierModel.init_state nt n) nw nt c ->
+  guard_ok BarrierModel.ev BarrierI.is_cb (gm c) w t e = true ->
+  BarrierModel.step (gp c) (t, e) = Some s1 -> BarrierI.push (gp c) t e = Some x ->
+  exists m1, mmove (gm c) w (PushTop x) = Some m1 /\ places (gm c) x = 0 /\ places m1 x = 1 /\ is_live (gm c) x = true.
+Proof. intros nw nt n c w t e s1 x Hnt R. eapply (BarrierP.p_wake_once _ (BarrierP.susp_init nt n)); eauto. Qed.
+Print Assumptions C06_wake_inserts_once.
+
+Theorem C06_own_step_on_unique_worker : forall nw nt n (c c' : BarrierI.pstate) w t e, 1 <= nt ->
+  BarrierP.preach (BarrierModel.init_state nt n) nw nt c ->
+  BarrierI.pstep c (GSync w t e) = Some c' -> BarrierI.is_cb e = false ->
+  nth_error (cur (gm c)) w = Some (Run t) /\ places (gm c) t = 1 /\
+  (forall w', nth_error (cur (gm c)) w' = Some (Run t) -> w' = w) /\
+  (forall w', nth_error (hand (gm c)) w' <> Some (Some t)) /\
+  (forall w' q, nth_error (dq (gm c)) w' = Some q -> ~ In t q) /\ BarrierI.susp (gp c) t = false.
+Proof. intros nw nt n c c' w t e Hnt R. eapply (BarrierP.p_unique _ (BarrierP.susp_init nt n)); eauto. Qed.
+Print Assumptions C06_own_step_on_unique_worker.
+
+(** C07 join counter: a registered waiter (suspended in myth_join_counter_wait) - in particular
+    every member of the sleep queue - occupies no worker *)
+Theorem C07_blocked_frees_worker : forall nw nt n s0 (c : JcI.pstate) x, 1 <= nt ->
+  JcModel.init_state n nt = Some s0 -> JcP.preach s0 nw nt c ->
+  JcI.susp (gp c) x = true \/ (JcModel.representable n nt = true /\ In x (JcModel.sq (gp c))) ->
+  is_live (gm c) x = true /\ places (gm c) x = 0 /\
+  forall w, nth_error (cur (gm c)) w <> Some (Run x) /\ nth_error (hand (gm c)) w <> Some (Some x) /\
+            (forall q, nth_error (dq (gm c)) w = Some q -> ~ In x q).
+Proof.
+  intros nw nt n s0 c x Hnt Hi R H. eapply (JcP.p_blocked _ (fun y => JcP.susp_init n nt s0 y Hi)); eauto.
+  destruct H as [H|[Hr H]]; [exact H|]. eapply JcP.queue_members_susp; eauto.
+Qed.
+Print Assumptions C07_blocked_frees_worker.
+
+Theorem C07_wake_inserts_once : forall nw nt n s0 (c : JcI.pstate) w t e s1 x, 1 <= nt ->
+  JcModel.init_state n nt = Some s0 -> JcP.preach s0 nw nt c ->
+  guard_ok JcModel.ev JcI.is_cb (gm c) w t e = true ->
+  JcModel.step (gp c) (t, e) = Some s1 -> JcI.push (gp c) t e = Some x ->
+  exists m1, mmove (gm c) w (PushTop x) = Some m1 /\ places (gm c) x = 0 /\ places m1 x = 1 /\ is_live (gm c) x = true.
+Proof. intros nw nt n s0 c w t e s1 x Hnt Hi R. eapply (JcP.p_wake_once _ (fun y => JcP.susp_init n nt s0 y Hi)); eauto. Qed.
+Print Assumptions C07_wake_inserts_once.
+
+Theorem C07_own_step_on_unique_worker : forall nw nt n s0 (c c' : JcI.pstate) w t e, 1 <= nt ->
+  JcModel.init_state n nt = Some s0 -> JcP.preach s0 nw nt c ->
+  JcI.pstep c (GSync w t e) = Some c' -> JcI.is_cb e = false ->
+  nth_error (cur (gm c)) w = Some (Run t) /\ places (gm c) t = 1 /\
+  (forall w', nth_error (cur (gm c)) w' = Some (Run t) -> w' = w) /\
+  (forall w', nth_error (hand (gm c)) w' <> Some (Some t)) /\
+  (forall w' q, nth_error (dq (gm c)) w' = Some q -> ~ In t q) /\ JcI.susp (gp c) t = false.
+Proof. intros nw nt n s0 c c' w t e Hnt Hi R. eapply (JcP.p_unique _ (fun y => JcP.susp_init n nt s0 y Hi)); eauto. Qed.
+Print Assumptions C07_own_step_on_unique_worker.
+
+(** C08 uncond: the waiter of a rendezvous (suspended in myth_uncond_wait) - in particular the
+    thread published in u->th - occupies no worker *)
+Theorem C08_blocked_frees_worker : forall nw nt (c : UncondI.pstate) x, 1 <= nt ->
+  UncondP.preach (UncondModel.init_state nt) nw nt c ->
+  UncondI.susp (gp c) x = true \/ UncondModel.th (gp c) = Some x ->
+  is_live (gm c) x = true /\ places (gm c) x = 0 /\
+  forall w, nth_error (cur (gm c)) w <> Some (Run x) /\ nth_error (hand (gm c)) w <> Some (Some x) /\
+            (forall q, nth_error (dq (gm c)) w = Some q -> ~ In x q).
+Proof.
+  intros nw nt c x Hnt R H. eapply (UncondP.p_blocked _ (UncondP.susp_init nt)); eauto.
+  destruct H as [H|H]; [exact H|]. eapply UncondP.published_susp; eauto.
+Qed.
+Print Assumptions C08_blocked_frees_worker.
+
+Theorem C08_wake_inserts_once : forall nw nt (c : UncondI.pstate) w t e s1 x, 1 <= nt ->
+  UncondP.preach (UncondModel.init_state nt) nw nt c ->
+  guard_ok UncondModel.ev UncondI.is_cb (gm c) w t e = true ->
+  UncondModel.step (gp c) (t, e) = Some s1 -> UncondI.push (gp c) t e = Some x ->
+  exists m1, mmove (gm c) w (PushTop x) = Some m1 /\ places (gm c) x = 0 /\ places m1 x = 1 /\ is_live (gm c) x = true.
+Proof. intros nw nt c w t e s1 x Hnt R. eapply (UncondP.p_wake_once _ (UncondP.susp_init nt)); eauto. Qed.
+Print Assumptions C08_wake_inserts_once.
+
+Theorem C08_own_step_on_unique_worker : forall nw nt (c c' : UncondI.pstate) w t e, 1 <= nt ->
+  UncondP.preach (UncondModel.init_state nt) nw nt c ->
+  UncondI.pstep c (GSync w t e) = Some c' -> UncondI.is_cb e = false ->
+  nth_error (cur (gm c)) w = Some (Run t) /\ places (gm c) t = 1 /\
+  (forall w', nth_error (cur (gm c)) w' = Some (Run t) -> w' = w) /\
+  (forall w', nth_error (hand (gm c)) w' <> Some (Some t)) /\
+  (forall w' q, nth_error (dq (gm c)) w' = Some q -> ~ In t q) /\ UncondI.susp (gp c) t = false.
+Proof. intros nw nt c c' w t e Hnt R. eapply (UncondP.p_unique _ (UncondP.susp_init nt)); eauto. Qed.
+Print Assumptions C08_own_step_on_unique_worker.
 
 (* ------------------------------------------------------------------------------------------ *)
 (** Non-vacuity, 2 workers / 3 threads: main creates t1 child-first, worker 1 steals main; t1 takes
@@ -101,7 +230,7 @@ Proof. vm_compute. repeat split; auto. Qed.
 Example Compose_example_in_hand :   (* main dequeued, bit cleared, not yet pushed: in hand, still parked *)
   let c := run cstep sched_wake (cinit 2 3 1) in
   mq (sy c) = [] /\ mword (sy c) = 0%Z /\ push_target (sy c) 1 ETick = Some 0 /\
-  guard_ok (ma c) 0 1 ETick = true /\ parked (ma c) 0 = true.
+  cguard (ma c) 0 1 ETick = true /\ parked (ma c) 0 = true.
 Proof. vm_compute. repeat split; reflexivity. Qed.
 
 Example Compose_example_woken :
@@ -109,4 +238,50 @@ Example Compose_example_woken :
                                      CSync 1 0 ETick; CSync 1 0 ETick; CSync 1 0 (ERet 0%Z)]) (cinit 2 3 1) in
   dq (ma c) = [[]; []] /\ cur (ma c) = [Run 1; Run 0] /\ places (ma c) 0 = 1 /\ holds (sy c) 0 = true /\
   mword (sy c) = 1%Z.
+Proof. vm_compute. repeat split; reflexivity. Qed.
+
+(** barrier for 2 on 2 workers: t1 arrives first and sleeps on the stack (parked, worker 0 idle);
+    main arrives last, pops it and pushes it on its own run queue *)
+Definition bsched_block : list BarrierI.pevent :=
+  [GMach 0 (CreateCF 1); GMach 1 (Steal 0); GMach 1 RunHand;
+   GSync 0 1 (BarrierModel.ECall BarrierModel.Wait); GSync 0 1 BarrierModel.ETick; GSync 0 1 BarrierModel.ETick;
+   GSync 0 1 BarrierModel.ECbTick; GSync 0 1 BarrierModel.ECbTick].
+Example Compose_example_barrier :
+  let c := run BarrierI.pstep bsched_block (BarrierI.pinit 2 2 2%Z) in
+  BarrierModel.stack_list (gp c) = ([1], true) /\ BarrierI.susp (gp c) 1 = true /\
+  cur (gm c) = [Sched; Run 0] /\ parked (gm c) 1 = true /\
+  let c2 := run BarrierI.pstep [GSync 1 0 (BarrierModel.ECall BarrierModel.Wait); GSync 1 0 BarrierModel.ETick;
+                                GSync 1 0 BarrierModel.ETick; GSync 1 0 BarrierModel.ETick; GSync 1 0 BarrierModel.ETick;
+                                GSync 1 0 BarrierModel.ETick; GSync 1 0 BarrierModel.ETick] c in
+  dq (gm c2) = [[]; [1]] /\ places (gm c2) 1 = 1 /\ BarrierI.susp (gp c2) 1 = false /\
+  BarrierModel.stack_list (gp c2) = ([], true).
+Proof. vm_compute. repeat split; reflexivity. Qed.
+
+(** uncond: t1 waits (published, parked), main signals: clear, push *)
+Example Compose_example_uncond :
+  let c := run UncondI.pstep
+     [GMach 0 (CreateCF 1); GMach 1 (Steal 0); GMach 1 RunHand;
+      GSync 0 1 UncondModel.EAnnounce; GSync 0 1 (UncondModel.ECall UncondModel.Wait); GSync 0 1 UncondModel.ECbTick]
+     (UncondI.pinit 2 2) in
+  UncondModel.th (gp c) = Some 1 /\ parked (gm c) 1 = true /\ cur (gm c) = [Sched; Run 0] /\
+  let c2 := run UncondI.pstep [GSync 1 0 (UncondModel.ECall UncondModel.Signal); GSync 1 0 UncondModel.ETick;
+                               GSync 1 0 UncondModel.ETick; GSync 1 0 UncondModel.ETick] c in
+  dq (gm c2) = [[]; [1]] /\ places (gm c2) 1 = 1 /\ UncondModel.th (gp c2) = None.
+Proof. vm_compute. repeat split; reflexivity. Qed.
+
+(** join counter for 1 decrement: t1 registers and sleeps in the queue (parked); main's decrement is
+    the last one: it dequeues t1 and pushes it *)
+Example Compose_example_jc :
+  match JcModel.init_state 1 2 with
+  | None => False
+  | Some s0 =>
+    let c := run JcI.pstep
+       [GMach 0 (CreateCF 1); GMach 1 (Steal 0); GMach 1 RunHand;
+        GSync 0 1 (JcModel.ECall JcModel.Wait); GSync 0 1 JcModel.ETick; GSync 0 1 JcModel.ETick; GSync 0 1 JcModel.ECbTick]
+       (JcI.pinit 2 s0) in
+    JcModel.sq (gp c) = [1] /\ parked (gm c) 1 = true /\ cur (gm c) = [Sched; Run 0] /\
+    let c2 := run JcI.pstep [GSync 1 0 (JcModel.ECall JcModel.Dec); GSync 1 0 JcModel.ETick; GSync 1 0 JcModel.ETick;
+                             GSync 1 0 JcModel.ETick; GSync 1 0 JcModel.ETick] c in
+    dq (gm c2) = [[]; [1]] /\ places (gm c2) 1 = 1 /\ JcModel.sq (gp c2) = []
+  end.
 Proof. vm_compute. repeat split; reflexivity. Qed.
